@@ -8,6 +8,7 @@ import (
 	"errors"
 	"net"
 	"runtime"
+	"sort"
 	"sync"
 	"sync/atomic"
 )
@@ -22,6 +23,51 @@ import (
 type VerifConnEvent struct {
 	Kind, Call, A, B        int
 	NCalls, SumKeys, Closed int
+	Keys                    []int // sorted keys of c.calls at trace points that hold c.mu (nil elsewhere)
+	InUse                   int   // the allocator's in-use count read at the trace point (racy by nature: see C01/Corr.v)
+}
+
+type verifCtxKey struct{}
+
+// VerifWithToken returns a context that carries the harness's request number n (> 0); exec records it
+// with the call it creates, which links a caller of the public API to its call in the event log.
+func VerifWithToken(ctx context.Context, n int) context.Context {
+	return context.WithValue(ctx, verifCtxKey{}, n)
+}
+
+func verifCtxTok(ctx context.Context) int {
+	if ctx == nil {
+		return 0
+	}
+	n, _ := ctx.Value(verifCtxKey{}).(int)
+	return n
+}
+
+// VerifConnNetConn is the net.Conn c runs over (to tell the connections of different in-memory networks apart).
+func VerifConnNetConn(c *Conn) net.Conn { return c.conn }
+
+// VerifConnTracesOf is VerifConnTraces with an arbitrary selection.
+func VerifConnTracesOf(sel func(*Conn) bool, consume bool) []VerifConnTrace {
+	r := &verifConnRec
+	r.mu.Lock()
+	defer r.mu.Unlock()
+	var out []VerifConnTrace
+	var keep []*verifConnLog
+	for _, l := range r.order {
+		if !sel(l.conn) {
+			keep = append(keep, l)
+			continue
+		}
+		out = append(out, VerifConnTrace{Conn: l.conn, Version: int(l.conn.version), Streams: l.conn.streams.NumStreams,
+			Events: append([]VerifConnEvent(nil), l.events...)})
+		if consume {
+			delete(r.logs, l.conn)
+		} else {
+			keep = append(keep, l)
+		}
+	}
+	r.order = keep
+	return out
 }
 
 // VerifConnTrace is the event log of one connection.
@@ -133,14 +179,18 @@ func (c *Conn) vConn(kind int, call *callReq, a, b int) {
 		// the caller holds c.mu
 		ev.NCalls = len(c.calls)
 		ev.SumKeys = 0
+		ev.Keys = make([]int, 0, len(c.calls))
 		for k := range c.calls {
 			ev.SumKeys += k
+			ev.Keys = append(ev.Keys, k)
 		}
+		sort.Ints(ev.Keys)
 		ev.Closed = 0
 		if c.closed {
 			ev.Closed = 1
 		}
 	}
+	ev.InUse = c.streams.NumStreams - 1 - c.streams.Available()
 	l.events = append(l.events, ev)
 }
 
